@@ -2,6 +2,7 @@
 Not decided here: convergence to the free-air values as the height grows (a limit, not an identity)."""
 import numpy as np
 from ..runner import job
+from .. import core
 from .. import gsx, term as S, helpers
 from ..specs import vlm
 from ..surfaces import surface
@@ -94,6 +95,7 @@ def kernel_reflection(env):
     import openaerostruct.aerodynamics.eval_mtx as E
     xp = env.xp
     env.indicator_branch = 1
+    env.indicator_only = core.kernel_tol_mask          # only the documented |den| <= 1e-10 guard of the kernels is exempt
     a = env.var("alpha", ())
     sa, ca = xp.sin(a), xp.cos(a)
     n = np.array([sa, 0 * sa, -ca], dtype=object if env.sym else float)
